@@ -21,17 +21,52 @@ try:
     rc, _ = sh(f'git -C /repo worktree add -q --detach {wt} HEAD', '/')
     assert rc == 0
     demo_txt = open(os.path.join(seed, 'demo.txt')).read()
-    demos = [f for f in os.listdir(seed) if f.endswith('.go')]
+    demos = []
+    for root, _, fs in os.walk(seed):
+        for f in fs:
+            if f.endswith('.go'):
+                demos.append(os.path.relpath(os.path.join(root, f), seed))
     placed = []
-    for f in demos:
-        m = re.search(r'((?:server|pkg|client|tests|tools)[\w/\-\.]*?)/' + re.escape(f), demo_txt)
-        if not m:
-            pk = re.search(r'^package (\w+)', open(os.path.join(seed, f)).read(), re.M).group(1)
-            raise SystemExit(f'cannot place {f} (package {pk})')
-        d = m.group(1)
+    def pkgdir(pkgname):
+        # unique directory of the tree declaring that package name
+        cands = set()
+        for top in ('server', 'pkg', 'client'):
+            for root, _, fs in os.walk(os.path.join(wt, top)):
+                for f in fs:
+                    if f.endswith('.go') and not f.endswith('_test.go'):
+                        try:
+                            head = open(os.path.join(root, f)).read(4000)
+                        except Exception:
+                            continue
+                        if re.search(r'^package %s$' % re.escape(pkgname), head, re.M):
+                            cands.add(os.path.relpath(root, wt)); break
+        return cands.pop() if len(cands) == 1 else None
+    for rel in demos:
+        f = os.path.basename(rel)
+        d, target = None, f
+        if os.path.dirname(rel):            # delivered under its tree-relative path
+            d = os.path.dirname(rel)
+        if d is None:
+            m = re.search(re.escape(f) + r'\s*-+>\s*(?:<pd tree>/)?((?:server|pkg|client)[\w/\-\.]*?)/([\w\-\.]+_test\.go)', demo_txt)
+            if m:
+                d, target = m.group(1), m.group(2)
+        if d is None:
+            m = re.search(r'((?:server|pkg|client|tests|tools)[\w/\-\.]*?)/' + re.escape(f), demo_txt)
+            if m:
+                d = m.group(1)
+        if d is None:
+            pk = re.search(r'^package (\w+)', open(os.path.join(seed, rel)).read(), re.M).group(1)
+            d = pkgdir(pk[:-5] if pk.endswith('_test') else pk)
+            if d is None:
+                raise SystemExit(f'cannot place {f} (package {pk})')
         os.makedirs(os.path.join(wt, d), exist_ok=True)
-        shutil.copy(os.path.join(seed, f), os.path.join(wt, d, f)); placed.append(os.path.join(d, f))
-    cmds = [l.strip() for l in demo_txt.splitlines() if l.strip().startswith('go test') or l.strip().startswith('go run')]
+        shutil.copy(os.path.join(seed, rel), os.path.join(wt, d, target)); placed.append(os.path.join(d, target))
+    cmds = []
+    for l in demo_txt.splitlines():
+        t = l.strip().lstrip('#').strip().strip('`')
+        t = re.sub(r'^or:\s*', '', t)
+        if t.startswith('go test') or t.startswith('go run'):
+            cmds.append(t)
     assert cmds, 'no go test command in demo.txt'
     cmd = ' && '.join(cmds[:1])
     rc_clean, _ = sh(cmd, wt)
